@@ -120,3 +120,13 @@ package api
 //@   requires c != nil
 //@   modifies c.txSigner, c.callerAddress
 //@   ensures Signer(c) == txSigner
+
+// ---- message dispatch between applications (C08): subscribers write through the context they are given ----
+
+//@ func MessageDispatcher.Publish
+//@   iface (self MessageDispatcher, ctx *Context, msg Message) (result any, err error)
+//@   requires ctx != nil
+//@   modifies GTreeW, GPublishes, kvState(), *ctx
+//@   ensures OnlyTree(old(TreeOf(ctx))) && TreeOf(ctx) == old(TreeOf(ctx)) && ctx.parent == old(ctx.parent) && InTx(ctx) == old(InTx(ctx)) && ctx.mode == old(ctx.mode) && ctx.callerAddress == old(ctx.callerAddress)
+//@   ensures GPublishes == old(GPublishes) + 1
+//@   note ASSUMPTION about every message subscriber of every application: a handler reads and writes consensus state only through the state tree of the context it is called with (and may emit events / use gas on that context); it does not reach the caller's tree by other means. The ghost ledgers of individual applications are not mentioned here: callers that publish do not claim them across the call
